@@ -262,6 +262,22 @@ func (g *xgen) elem(depth, maxDepth int, top bool) *XN {
 			n.Kids = append(n.Kids, g.elem(depth+1, maxDepth, false))
 		}
 	}
+	if r.Chance(0.15) {
+		for _, k := range n.Kids {
+			if it := k.innerText(); !k.IsText && it != "" && !strings.ContainsAny(it, "\n\t") {
+				dup := false
+				for _, a := range n.Attrs {
+					if a.rawName == "ref" {
+						dup = true
+					}
+				}
+				if !dup {
+					n.Attrs = append(n.Attrs, XA{Local: "ref", Value: it, rawName: "ref"})
+				}
+				break
+			}
+		}
+	}
 	return n
 }
 
@@ -403,6 +419,8 @@ func xmlFacts(n *XN) []*PExp {
 		nm := [2]string{a.Prefix, a.Local}
 		fs = append(fs, &PExp{Op: "attreq", Name: &nm, V: a.Value}, &PExp{Op: "hasattr", Name: &nm})
 	}
+	cnt := map[NT]int{}
+	var seen []NT
 	for _, k := range n.Kids {
 		if k.IsText {
 			if okValue(k.Text) {
@@ -411,10 +429,29 @@ func xmlFacts(n *XN) []*PExp {
 			continue
 		}
 		nt := NT{Prefix: k.Prefix, Local: k.Local}
+		if cnt[nt] == 0 {
+			seen = append(seen, nt)
+		}
+		cnt[nt]++
+		if it := k.innerText(); okValue(it) && cnt[nt] <= 3 {
+			fs = append(fs, &PExp{Op: "childposeq", NT: &nt, N: cnt[nt], V: it})
+		}
+		for _, a := range n.Attrs {
+			if a.Prefix != "xmlns" && a.Local != "xmlns" && a.Value == k.innerText() {
+				nm := [2]string{a.Prefix, a.Local}
+				fs = append(fs, &PExp{Op: "attreqchild", Name: &nm, NT: &nt})
+			}
+		}
 		if it := k.innerText(); okValue(it) {
 			fs = append(fs, &PExp{Op: "childeq", NT: &nt, V: it})
 		}
 		fs = append(fs, &PExp{Op: "haschild", NT: &nt})
+	}
+	for _, nt := range seen {
+		if c := cnt[nt]; c <= 3 {
+			nt := nt
+			fs = append(fs, &PExp{Op: "count", NT: &nt, N: c})
+		}
 	}
 	if it := n.innerText(); okValue(it) {
 		fs = append(fs, &PExp{Op: "selfeq", V: it})
